@@ -141,6 +141,18 @@ CHECKS = {
              'their snapshot, repeated requests by identity.',
         note='Single task: the only nondeterminism is reference lifetime / GC instants and file events, which the '
              'op list fixes; an added empty alias section is not counted as a change of the source.'),
+    'C20': dict(
+        level='exploration', ref='4 (C20)',
+        technique='deterministic simulation: wrapped vs plain pipeline under seeded fault plans, stop points and '
+                  '(for thread prefetch) the seeded thread scheduler with a virtual clock; counters checked against '
+                  'a reference counter and the event log',
+        text='Generated pipelines (single and multi-input stages, optional thread prefetch, injected failures with '
+             'and without catch) are observed plain, inside ProfilingDataset and inside an independent reference '
+             'counter by full / partial iteration and indexing; observations must agree, the wrapped pipeline object '
+             'must be untouched, hit counters must equal the reference counter and, for map stages, the completed '
+             'function applications of the event log.',
+        note='Counters are compared only for runs whose prefetch iterations ran to the end (look-ahead is schedule '
+             'dependent otherwise); lost updates inside one source line are below the simulated granularity.'),
 }
 
 NOT_APPLICABLE = {
